@@ -247,3 +247,159 @@ def k1_drop_counter(res, tier):
         elif r.kind in ('oob', 'unreachable', 'ub', 'diverge', 'depth', 'panic'):
             res.fail(f'C15.K1:drop:{r.kind}', f'peephole::drop: path ends in {r.kind}: {str(r.info)[:200]}', {'path': str(r.info)})
     summarize_paths(res, e, results, lambda r: r.info if isinstance(r.info, dict) else None, key_prefix='C15.K1:drop:', unwind_ok=True, ok_kinds=('ok', 'panic', 'stop'))
+
+
+# ---------------------------------------------------------------------------------------------- K4 the parser's loop counter is balanced
+F62_SRC = 'while true { fn f(1) {} }\n'
+F62_REPLAY = dict(kind='lay', source=F62_SRC, bad_exit=[101, 134, -6], bad_re=r'panicked at',
+                  note='the parameter list of a function inside a loop does not parse: the loop counter is left at 0 and the enclosing loop decrements it')
+
+
+@obligation('C15.K4.parser_loop_depth_balanced', 'C15', programs=('vm',), also=('C16',))
+def k4_loop_depth_balanced(res, tier):
+    """Parser::function and Parser::lambda from MIR with every sub-parser summarised by an arbitrary answer (a node or a diagnostic)
+    that leaves the loop counter as it found it (induction hypothesis): on EVERY path, the ones that end in a diagnostic included,
+    the counter has its entry value again when the function returns — so the `-= 1` of the enclosing loop never underflows and
+    `break` / `continue` are judged against the right depth after a syntax error"""
+    P = get_program('vm')
+    res.bounds = {'loop depth at entry': 'any u16', 'sub-parsers': 'arbitrary Ok / Err answers'}
+    res.assumptions = ['induction hypothesis: every sub-parser called returns with the loop counter it was entered with (this obligation for function / lambda; '
+                       'loop_ restores it by construction: += 1, callback, -= 1)']
+    psd = P.struct_def('compiler::parser::Parser')
+    if psd is None:
+        res.inconclusive('Parser definition not located')
+        return
+    li = psd.index_of('loop_depth')
+    for fname in ('function', 'lambda'):
+        f = P.lookup('compiler::parser::Parser::' + fname)
+        if f is None:
+            res.inconclusive(f'Parser::{fname} not located')
+            continue
+        e = Engine(P, loop_bound=4, timeout_s=120, max_depth=40)
+        e.allow_havoc(r'^(compiler::)?(parser::)?Parser::(?!' + fname + r'$)\w+$', r'^(compiler::)?(ir::)?(ast::)?\w+::new$', r'^<.* as (std::clone::|core::clone::)?Clone>::clone$',
+                      r'^(std|alloc|core)::fmt::', r'^format$', r'^must_use$', r'Arguments::', r'^(compiler::)?(ir::)?(token::)?Token::\w+$',
+                      r'^<(std::string::|alloc::string::)?String as .*>::\w+$', r'^(std::string::|alloc::string::)?String::\w+$',
+                      r'^(std::result::|core::result::)?Result::map$', r'^<.* as (std::ops::|core::ops::)?(Try|FromResidual).*>::\w+$')
+
+        # Result::map with the node-building closure: the answer keeps Ok / Err
+        def m_map(e_, a, c):
+            r = a[0]
+            oty = norm_ty(c.dest_ty)
+            out = e_.fresh(oty, e_.fresh_name('mapped'))
+            if isinstance(r, EnumV) and isinstance(out, EnumV):
+                e_.add_constraint((out.tag if not isinstance(out.tag, int) else bv(out.tag, 64)) == (r.tag if not isinstance(r.tag, int) else bv(r.tag, 64)))
+            return out
+        e.model(r'^(std::result::|core::result::)?Result::map$', m_map)
+
+        def path(e, f=f, fname=fname):
+            parser = e.fresh('compiler::parser::Parser', 'parser')
+            d0 = parser.field(e, li, 'u16').get(e)
+            args = [Ref(Cell(parser))]
+            for i, (an, aty) in enumerate(f.args[1:]):
+                args.append(e.fresh(aty, f'arg{i}'))
+            r = e.call(f, args)
+            d1 = parser.field(e, li, 'u16').get(e)
+            err = None
+            if isinstance(r, EnumV):
+                err = (r.tag == 1) if isinstance(r.tag, int) else bool(e.fork_bool(r.tag == 1))
+            e.check(d1 == d0, f'Parser::{fname}: the loop counter has its entry value again when the function returns', {'returns': 'a diagnostic' if err else 'a node'})
+            return {'fn': fname, 'diagnostic': err}
+        results = e.explore(path)
+        for r in results:
+            for lab, ok, info in list(r.checks):
+                if not ok:
+                    res.fail(f'C15.K4:Parser::{fname} leaves the loop counter changed on a diagnostic path',
+                             f'Parser::{fname} sets the loop counter to 0 for the body and returns early (`?`) on a syntax error without restoring it: the enclosing loop then '
+                             'decrements 0 (host panic in debug builds, 65535 in release so that `break` outside any loop is accepted)', info, replay=F62_REPLAY)
+                    r.checks.remove((lab, ok, info))
+            if r.kind in ('oob', 'unreachable', 'ub', 'diverge', 'depth', 'panic'):
+                res.fail(f'C15.K4:{fname}:{r.kind}', f'Parser::{fname}: path ends in {r.kind}: {str(r.info)[:200]}', {'path': str(r.info)})
+        summarize_paths(res, e, results, lambda r: r.info if isinstance(r.info, dict) else None, key_prefix=f'C15.K4:{fname}:', unwind_ok=False)
+
+
+# ---------------------------------------------------------------------------------------------- K5 resolver and compiler agree on when a name starts to exist
+F63_FOR_REPLAY = dict(kind='lay', source='for x in x {}\n', bad_exit=[101, 134, -6], bad_re=r'panicked at',
+                      note='the resolver binds the iterable `x` to the loop variable, the compiler evaluates the iterable before the variable exists')
+F63_CATCH_REPLAY = dict(kind='lay', source='try { } catch e: e { }\n', bad_exit=[101, 134, -6], bad_re=r'panicked at',
+                        note='the resolver binds the class `e` to the catch variable, the compiler loads the class before the variable exists')
+
+
+def _resolver_order(res, fname, node_ty, introduced, used_kind, replay):
+    """run Resolver::<fname> from MIR; the name the construct introduces must be declared AFTER the expression / class the construct
+    evaluates first has been resolved (the compiler lowers in that order: C02.K2 / C06.C1)"""
+    P = get_program('vm')
+    f = P.lookup('compiler::resolver::Resolver::' + fname)
+    if f is None:
+        res.inconclusive(f'Resolver::{fname} not located')
+        return
+    e = Engine(P, loop_bound=4, timeout_s=120, max_depth=40)
+
+    def ev(kind):
+        def m(e_, a, c):
+            tgt = a[1] if len(a) > 1 else None
+            cell = tgt.cell if isinstance(tgt, Ref) else None
+            e_.path_state['order'].append((kind, id(cell) if cell is not None else None))
+            e_.path_state.setdefault('keep', []).append(cell)
+            return UNIT
+        return m
+    e.model(r'^(compiler::)?(resolver::)?Resolver::declare_variable$', ev('declare'))
+    e.model(r'^(compiler::)?(resolver::)?Resolver::define_variable$', ev('define'))
+    e.model(r'^(compiler::)?(resolver::)?Resolver::expr$', ev('expr'))
+    e.model(r'^(compiler::)?(resolver::)?Resolver::resolve_variable$', ev('use'))
+    e.model(r'^(compiler::)?(resolver::)?Resolver::block$', ev('block'))
+
+    def m_scope(e_, a, c):
+        e_.call_value(c.frame, a[1], [a[0]])
+        return e_.fresh(norm_ty(c.dest_ty), e_.fresh_name('symbols')) if c.dest_ty else UNIT
+    e.model(r'^(compiler::)?(resolver::)?Resolver::scope$', m_scope)
+    e.allow_havoc(r'^(compiler::)?(ir::)?(token::)?Token::\w+$', r'^(compiler::)?(ir::)?(ast::)?\w+::(start|end|span)$', r'^<.* as (compiler::)?(ir::)?(ast::)?Spanned>::\w+$',
+                  r'^<.* as (std::ops::|core::ops::)?Drop>::drop$', r'^(std::ptr::|core::ptr::)?drop_in_place$')
+    sd = P.struct_def(node_ty)
+
+    def path(e):
+        e.path_state['order'] = []
+        r = e.fresh('compiler::resolver::Resolver', 'resolver')
+        node = e.fresh(node_ty, 'node')
+        ic = node.field(e, sd.index_of(introduced), sd.fields[sd.index_of(introduced)][1])
+        e.call(f, [Ref(Cell(r)), Ref(Cell(node))])
+        order = e.path_state['order']
+        decl = [i for i, (k, c) in enumerate(order) if k == 'declare' and c == id(ic)]
+        uses = [i for i, (k, c) in enumerate(order) if k == used_kind]
+        e.check(len(decl) == 1 and len(uses) >= 1, f'Resolver::{fname}: the construct declares its name once and resolves what it evaluates first', {'events': [k for k, _ in order]})
+        if decl and uses:
+            e.check(uses[0] < decl[0], f'Resolver::{fname}: what the construct evaluates before its name exists is resolved before the name is declared',
+                    {'events': [k for k, _ in order]})
+        return {'fn': fname, 'events': len(order)}
+    results = e.explore(path)
+    for r in results:
+        for lab, ok, info in list(r.checks):
+            if not ok and 'before the name is declared' in lab:
+                res.fail(f'C15.K5:Resolver::{fname} declares the name before resolving what is evaluated first',
+                         f'Resolver::{fname} puts the introduced name in scope before it resolves the expression the compiler lowers first: a use of the same name there is bound to a '
+                         'local the compiler has not declared yet (host panic "Symbol not found")', info, replay=replay)
+                r.checks.remove((lab, ok, info))
+        if r.kind in ('oob', 'unreachable', 'ub', 'diverge', 'depth', 'panic'):
+            res.fail(f'C15.K5:{fname}:{r.kind}', f'Resolver::{fname}: path ends in {r.kind}: {str(r.info)[:200]}', {'path': str(r.info)})
+    summarize_paths(res, e, results, lambda r: r.info if isinstance(r.info, dict) else None, key_prefix=f'C15.K5:{fname}:', unwind_ok=False)
+
+
+@obligation('C15.K5.resolver_name_order', 'C15', programs=('vm',), also=('C16', 'C02'))
+def k5_resolver_name_order(res, tier):
+    """Resolver::for_ and Resolver::catch from MIR with the sub-resolvers as events: the iterable of a for loop / the class of a catch
+    clause is resolved before the loop variable / catch variable is declared, which is the order in which Compiler::for_ / catch lower
+    them — otherwise `for x in x {}` / `catch e: e` bind a name to a local that does not exist yet when the compiler reaches the use"""
+    res.bounds = {'constructs': 'for, catch (with and without a class)'}
+    res.assumptions = ['Compiler::for_ lowers the iterable before it declares $iter and the loop variable; Compiler::catch loads the class before it declares the catch variable '
+                       '(checked on the source text of compiler/mod.rs)']
+    src = get_program('vm').items.files['laythe_vm/src/compiler/mod.rs']
+    import re as _re
+    mf = _re.search(r'\n  fn for_\(.*?\n  \}\n', src, _re.S)
+    mc = _re.search(r'\n  fn catch\(.*?\n  \}\n', src, _re.S)
+    okf = mf and 0 <= mf.group(0).find('self_.expr(&for_.iter)') < mf.group(0).find('declare_variable(')
+    okc = mc and 0 <= mc.group(0).find('variable_get(catch.class') < mc.group(0).find('declare_variable(')
+    if not (okf and okc):
+        res.inconclusive('the lowering order of Compiler::for_ / catch is not the one this obligation compares the resolver with')
+        return
+    res.checks += 2
+    _resolver_order(res, 'for_', 'compiler::ir::ast::For', 'item', 'expr', F63_FOR_REPLAY)
+    _resolver_order(res, 'catch', 'compiler::ir::ast::Catch', 'name', 'use', F63_CATCH_REPLAY)
